@@ -2,7 +2,7 @@
 # Development aid: confirm a sub-agent's seeded change in its scratch worktree and keep it under /verif/seeded/.
 #   seed_confirm.sh C04 A
 set -u
-id=$1; x=$2; wt=/tmp/wt-$id; src=$wt/_seed/$x
+id=$1; x=$2; wt=/tmp/${WT_PREFIX:-wt}-$id; src=$wt/_seed/$x
 export GOFLAGS=-mod=mod GOPROXY=off GOSUMDB=off GOTOOLCHAIN=local
 [ -f $src/patch.diff ] || { echo "no $src/patch.diff"; exit 2; }
 cd $wt || exit 2
